@@ -979,3 +979,32 @@ LEMMAS['chars_codes_agree'] = dict(
              'forall(i, 0, len(s), IsOpC(s[i]) == IsOp(c[i]) and OpXC(s[i]) == OpX(c[i]) and OpZC(s[i]) == OpZ(c[i]))'],
     induction='k',
 )
+
+# selection from a list by a boolean mask: the selected rows and phases, in order (MaskIdx / MaskCnt: the abstract mask functions)
+_giM = 'MaskCnt(item, len(item))'
+CONTRACTS[PA + 'PauliList.__getitem__#mask'] = dict(
+    params=[('self', dict(PLIST, exact=True)), ('item', 'bool1')],
+    requires=['len(item) == rows(self.gs)', 'len(self.ps) == rows(self.gs)'],
+    ensures=['rows(result.gs) == %s' % _giM, 'cols(result.gs) == cols(self.gs)', 'len(result.ps) == %s' % _giM,
+             'forall(k, 0, %s, forall(c, 0, cols(self.gs), result.gs[k][c] == self.gs[MaskIdx(item, len(item))[k]][c]))' % _giM,
+             'forall(k, 0, %s, result.ps[k] == self.ps[MaskIdx(item, len(item))[k]])' % _giM],
+    modifies=[], returns=dict(PLIST, exact=False),
+)
+# ... by a slice lo:hi within bounds (what the library itself uses for `stabilizers` / `destabilizers`)
+CONTRACTS[PA + 'PauliList.__getitem__#slice'] = dict(
+    params=[('self', dict(PLIST, exact=True)), ('item', 'slice')],
+    requires=['0 <= item.start <= item.stop <= rows(self.gs)', 'len(self.ps) == rows(self.gs)'],
+    ensures=['rows(result.gs) == item.stop - item.start', 'cols(result.gs) == cols(self.gs)', 'len(result.ps) == item.stop - item.start',
+             'forall(k, 0, item.stop - item.start, forall(c, 0, cols(self.gs), result.gs[k][c] == self.gs[k + item.start][c]))',
+             'forall(k, 0, item.stop - item.start, result.ps[k] == self.ps[k + item.start])'],
+    modifies=[], returns=dict(PLIST, exact=False),
+)
+# ... by an array of row indices (rows may repeat, any order)
+CONTRACTS[PA + 'PauliList.__getitem__#index'] = dict(
+    params=[('self', dict(PLIST, exact=True)), ('item', 'int1')],
+    requires=['forall(k, 0, len(item), 0 <= item[k] < rows(self.gs))', 'len(self.ps) == rows(self.gs)'],
+    ensures=['rows(result.gs) == len(item)', 'cols(result.gs) == cols(self.gs)', 'len(result.ps) == len(item)',
+             'forall(k, 0, len(item), forall(c, 0, cols(self.gs), result.gs[k][c] == self.gs[item[k]][c]))',
+             'forall(k, 0, len(item), result.ps[k] == self.ps[item[k]])'],
+    modifies=[], returns=dict(PLIST, exact=False),
+)
